@@ -92,9 +92,9 @@ Agree(L) ==
 (***************************************************************************)
 \* "prod": ALL old/new combinations of a few interacting keys at once (not only 1- and 2-key variations)
 ProdKeys == IF PLDepth = "full"
-            THEN <<"users_default", "events_default", "events.msg", "users.bob", "users.alice">>
-            ELSE <<"users_default", "events.msg", "users.bob", "users.alice">>
-ProdVals == {Absent, 1, 2, 4}
+            THEN <<"users_default", "users.bob", "users.alice", "events_default", "events.msg">>
+            ELSE <<"users_default", "users.bob", "users.alice">>
+ProdVals == IF PLDepth = "full" THEN {Absent, 2, 4} ELSE {Absent, 1, 2, 4}
 
 RECURSIVE SetKeys(_, _, _)
 SetKeys(c, f, i) == IF i = 0 THEN c ELSE SetKeys(SetKey(c, ProdKeys[i], f[i]), f, i - 1)
